@@ -86,6 +86,74 @@ def run_case(c):
     return rec
 
 
+def run_ccn(c):
+    """CoupledClimateNetwork: the two layers are the node groups (renumbered so that group 1 comes first).
+    Its wrappers are recorded under the names of the InteractingNetworks methods they stand for, so the same
+    definitional clauses of Val_C11 apply (obs = (layer 1, layer 2), swap = (layer 2, layer 1))."""
+    from pyunicorn.core import GeoGrid
+    from pyunicorn.climate import CoupledClimateNetwork
+    A0 = np.array(c["A"])
+    order = [v - 1 for v in c["L1"]] + [v - 1 for v in c["L2"]]
+    n1, n2 = len(c["L1"]), len(c["L2"])
+    A = A0[np.ix_(order, order)]
+    n = n1 + n2
+    rec = dict(c)
+    rec.update({"case": c["case"], "blk": "ccn", "n": n, "A": enc.ints(A), "w": [4] * n,
+                "L1": list(range(1, n1 + 1)), "L2": list(range(n1 + 1, n + 1))})
+    empty = lambda: {"s": {}, "v": {}, "m": {}, "nodes": {}, "x": {}}
+    obs, swap = empty(), empty()
+    rec.update({"obs": obs, "swap": swap, "whole": empty(), "plain": {"s": {}, "v": {}, "x": {}}})
+    try:
+        g1 = GeoGrid(np.arange(3.0), np.linspace(-40.0, 40.0, n1), np.linspace(0.0, 100.0, n1), silence_level=3)
+        g2 = GeoGrid(np.arange(3.0), np.linspace(-30.0, 50.0, n2), np.linspace(20.0, 140.0, n2), silence_level=3)
+        S = 0.9 * A + 0.1 * (1 - A)
+        np.fill_diagonal(S, 1.0)
+        net = CoupledClimateNetwork(g1, g2, S, threshold=0.5, directed=bool(c["directed"]),
+                                    node_weight_type=None, silence_level=3)
+    except Exception as ex:
+        obs["x"]["CoupledClimateNetwork"] = type(ex).__name__
+        return rec
+
+    def put(o, kind, name, fn):
+        try:
+            v = fn()
+            if hasattr(v, "toarray"):
+                v = v.toarray()
+            o[kind][name] = enc.num(v) if kind == "s" else enc.arr(v)
+        except Exception as ex:
+            o["x"][name] = type(ex).__name__
+
+    def pair(kind, name, fn):
+        put(obs, kind, name, lambda: fn()[0])
+        put(swap, kind, name, lambda: fn()[1])
+
+    put(obs, "m", "cross_adjacency", net.cross_layer_adjacency)
+    put(obs, "m", "internal_adjacency", net.adjacency_1)
+    put(swap, "m", "internal_adjacency", net.adjacency_2)
+    put(obs, "m", "internal_path_lengths", net.path_lengths_1)
+    put(swap, "m", "internal_path_lengths", net.path_lengths_2)
+    put(obs, "m", "cross_path_lengths", net.cross_path_lengths)
+    for o in (obs, swap):
+        put(o, "s", "number_cross_links", net.number_cross_layer_links)
+        put(o, "s", "cross_link_density", net.cross_link_density)
+        put(o, "s", "cross_average_path_length", net.cross_average_path_length)
+    pair("s", "number_internal_links", net.number_internal_links)
+    pair("s", "internal_link_density", net.internal_link_density)
+    pair("s", "internal_global_clustering", net.internal_global_clustering)
+    pair("s", "cross_global_clustering", net.cross_global_clustering)
+    pair("s", "cross_transitivity", net.cross_transitivity)
+    pair("s", "internal_average_path_length", net.internal_average_path_length)
+    pair("v", "cross_degree", net.cross_degree)
+    pair("v", "internal_degree", net.internal_degree)
+    pair("v", "cross_local_clustering", net.cross_local_clustering)
+    pair("v", "cross_closeness", net.cross_closeness)
+    pair("v", "internal_closeness", net.internal_closeness)
+    put(obs, "nodes", "cross_betweenness", lambda: np.concatenate(net.cross_betweenness()))
+    put(obs, "nodes", "internal_betweenness", lambda: np.concatenate(net.internal_betweenness_1()))
+    put(swap, "nodes", "internal_betweenness", lambda: np.concatenate(net.internal_betweenness_2()))
+    return rec
+
+
 def _nontrivial(rec):
     return len(rec["L1"]) + len(rec["L2"]) >= 3 and sum(map(sum, rec["A"])) > 0
 
@@ -101,11 +169,21 @@ def main(ctx):
         "for (G1,G2), (G2,G1) and (all,all).  non-trivial = >=3 nodes in the two groups and >=1 link")
     ctx.extra["scope"] = open(os.path.join(os.path.dirname(__file__), "..", "spec", cfg + ".cfg")).read().split()
     recs = ctx.run_cases("props.c11.run_case", cases)
+    # the same clauses for the wrappers of CoupledClimateNetwork (two layers = the two groups), on every
+    # third case with at least two nodes per layer
+    ccn = [dict(c, case="ccn_" + c["case"]) for k, c in enumerate(cases)
+           if k % 3 == 0 and len(c["L1"]) >= 2 and len(c["L2"]) >= 2]
+    recs += ctx.run_cases("props.c11.run_ccn", ccn)
+    ctx.extra["coupled_climate_network_cases"] = len(ccn)
     ctx.validate("Val_C11", "Val_C11", recs, nontrivial=_nontrivial)
 
 
 def replay(ctx, rep):
     rec = rep["record"]
     case = {k: v for k, v in rec.items() if k not in ("obs", "swap", "whole", "plain")}
+    if rec.get("blk") == "ccn":
+        recs = ctx.run_cases("props.c11.run_ccn", [case], jobs=1)
+        ctx.validate("Val_C11", "Val_C11", recs, nontrivial=_nontrivial)
+        return
     recs = ctx.run_cases("props.c11.run_case", [case], jobs=1)
     ctx.validate("Val_C11", "Val_C11", recs, nontrivial=_nontrivial)
